@@ -960,6 +960,8 @@ def write_tex(matrix, matrix_size, out, scale=1, border=None, dark='black', unit
     check_valid_scale(scale)
     check_valid_border(border)
     border = get_border(matrix_size, border)
+    # The command line script provides None if no unit was specified
+    unit = unit or 'pt'
     end_marker = ''
     with writable(out, 'wt') as f:
         write = f.write
